@@ -1,11 +1,8 @@
 SPECIFICATION LSpec
 CONSTANTS
-  MaxLoss = 2
-  MaxDup = 1
-  MaxTimeouts = 5
-INVARIANT RetryBound
-INVARIANT PoweredOnlyWhenTuned
-INVARIANT QueueIsScriptSuffix
-INVARIANT PoweredMeansServerRuns
+  MaxLoss = 1
+  MaxDup = 0
+  MaxTimeouts = 2
 INVARIANT NoSpuriousTermination
+INVARIANT PoweredMeansServerRuns
 CHECK_DEADLOCK FALSE
